@@ -72,10 +72,39 @@ func hostilize(rt *rapid.T, tree *gen.Node, escaped bool) {
 		}
 		return gen.Quoted(hostileString(rt, true, true))
 	}
+	// hostile patterns: regexps with arbitrary bytes between the slashes, wildcard
+	// words with escaped arbitrary runes (NUL, invalid UTF-8 and quotes included)
+	pattern := func(v *gen.Val, label string) *gen.Val {
+		h := hostileString(rt, false, true)
+		if v.K == gen.VRegexp {
+			body := strings.ReplaceAll(h, "/", "")
+			for strings.HasSuffix(body, `\`) {
+				body = body[:len(body)-1]
+			}
+			return gen.Regexp(body)
+		}
+		var b strings.Builder
+		b.WriteString("w")
+		for len(h) > 0 {
+			r, w := utf8.DecodeRuneInString(h)
+			b.WriteString(`\`)
+			if r == utf8.RuneError && w == 1 {
+				b.WriteByte(h[0])
+			} else {
+				b.WriteRune(r)
+			}
+			h = h[w:]
+		}
+		b.WriteString(rapid.SampledFrom([]string{"*", "?", "*x?"}).Draw(rt, label+"tail"))
+		return gen.Wild(b.String())
+	}
 	tree.Walk(func(_ int, n *gen.Node) {
 		repl := func(v **gen.Val, label string) {
 			if *v != nil && (*v).IsString() && rapid.IntRange(0, 2).Draw(rt, label) == 0 {
 				*v = mk(label, true)
+			}
+			if *v != nil && !(*v).IsPlain() && rapid.IntRange(0, 1).Draw(rt, label+"pat") == 0 {
+				*v = pattern(*v, label)
 			}
 		}
 		repl(&n.V, "v")
